@@ -36,7 +36,7 @@ def main(argv: List[str]) -> int:
     # per-element feature products (exhaustive in the thorough tier), each in the canonical and two random forms
     complete = True
     nprod = 0
-    for fam in docs.FAMILY_SIZES:
+    for fam in ('column', 'index', 'table', 'ref', 'enum', 'misc'):
         ps, full = docs.gen_products(fam, doccheck.budget(260, 10 ** 9), rep)
         complete = complete and full
         nprod += len(ps)
